@@ -161,6 +161,14 @@ func (s *Solver) define(t *Term, sb *strings.Builder) {
 			continue
 		}
 		tt := top.t
+		if (tt.Op == OIBitLen || tt.Op == OITz) && top.i == len(tt.Args) {
+			ex := expandLen(tt)
+			top.i++
+			if ex.Op != OConst && ex.Op != OVar && !s.defined[ex.ID] {
+				st = append(st, item{ex, 0})
+				continue
+			}
+		}
 		st = st[:len(st)-1]
 		if s.defined[tt.ID] {
 			continue
